@@ -4,31 +4,143 @@
   Model: `Lattigo.EncoderT` (lean/Lattigo/Model/EncoderT.lean), executed by the driver on every `C07 bgv …`
   tie line of harness/c07_bgv.go (EncodeRingT, DecodeRingT, Encode, Decode; all levels, gap ≥ 1, batched and
   coefficient domain).  The CKKS half of C07 is in Props/C07CKKS.lean (another work package).
+
+  Hypotheses that remain, stated once: `NTT.Valid T K` (C01: the plaintext modulus `t = T.q` is prime,
+  `8t ≤ 2^64`, Montgomery/Barrett constants and mutually inverse root tables of the ring of degree
+  `n = 2^K`; `tables_invariant` shows that the tables the code generates for a prime `t ≡ 1 (mod 2n)`
+  satisfy it), `K ≥ 1`, and a scale not divisible by `t`.  Everything else (the index table is a
+  permutation, NTT ∘ INTT = id, INTT returns reduced values, `scale · ModExp(scale, t−2, t) ≡ 1`) is proved.
+
+  `RingQ2T ∘ RingT2Q = id` is proved for every level and gap (`ringQ2T_ringT2Q`; `RPoly.modInv`, `RPoly.crt` are proved
+  correct), and `Decoder.Decode ∘ Encoder.Encode` through `R_Q` for batched / coefficient-domain, `[]uint64` / `[]int64`
+  (`decode_encode_*`), under `ParamsOK` (pairwise coprime moduli `> 1` coprime to `t`, `N = n·g`, `2(t−1) < Q`; at
+  level > 0 the size conditions follow from the `t ≤ Q[0]` check of `bgv.NewParameters`, `size_of_level_pos`).
+
+  NOT done (named gap): `encode_mul` is proved in the plaintext ring `Z_t[Y]/(Y^n+1)` (`⊛ = RPoly.rowMul t`); the same
+  statement for the lifted plaintexts in `R_Q` (product in `R_Q`, multiplication by `T`, `RingQ2T` — which needs the
+  no-wrap bound `n·t² ≲ Q/2` on the integer product) is the harness probe `encode_mul` only.
 -/
 import Lattigo.Proofs.EncoderT
+import Lattigo.Proofs.EncoderTPerm
+import Lattigo.Proofs.EncoderTRound
+import Lattigo.Proofs.EncoderTMul
+import Lattigo.Props.C01NTT
 import Lattigo.Props.C07CKKS
 
 namespace Lattigo.EncoderT.C07
 open Lattigo Lattigo.EncoderT
 
+/-- **permuteMatrix_perm**: for EVERY plaintext ring degree `n = 2^K`, `K ≥ 1`, the index table built by
+    `permuteMatrix` (`perm[i] = brv_K((5^i mod 2n)>>1)`, `perm[i+n/2] = n−1−perm[i]`) is a permutation of
+    `[0, n)`: `5` has order `n/2` modulo `2n` and `±5^i` exhausts the odd residues. -/
+theorem permuteMatrix_perm (K : ℕ) (hK : 1 ≤ K) : (permuteMatrix K).Perm (List.range (2 ^ K)) :=
+  Lattigo.EncoderT.permuteMatrix_perm K hK
+
+/-- the same, unfolded: `n` entries, pairwise distinct, all `< n` -/
+theorem permuteMatrix_ok (K : ℕ) (hK : 1 ≤ K) :
+    (permuteMatrix K).length = 2 ^ K ∧ (permuteMatrix K).Nodup ∧ ∀ p ∈ permuteMatrix K, p < 2 ^ K :=
+  ⟨permuteMatrix_length K hK, permuteMatrix_nodup K hK, permuteMatrix_lt K hK⟩
+
+example : permuteMatrix 4 = [0, 4, 3, 7, 1, 5, 2, 6, 15, 11, 12, 8, 14, 10, 13, 9] := by decide +kernel
+
+/-- **ntt_intt** (the direction the decoder needs; C01's `intt_ntt` is the other one): over the
+    plaintext ring, `NTT(INTT(x)) = x` for every reduced `x` of length `n`, and `INTT(x)` is reduced. -/
+theorem ntt_intt (T : NTT.Tables) (K : ℕ) (hT : NTT.Valid T K) (x : List ℕ) (hlen : x.length = T.n)
+    (hx : ∀ e ∈ x, e < T.q) :
+    NTT.nttStd T (NTT.inttStd T x) = x ∧ (NTT.inttStd T x).length = T.n ∧ ∀ e ∈ NTT.inttStd T x, e < T.q :=
+  nttStd_inttStd hT x hlen hx
+
+/-- **modExp_fermat**: the inverse `DecodeRingT` computes, `ring.ModExp(scale, t−2, t)`, IS the inverse of
+    `scale` modulo a prime `t < 2^64` whenever `t ∤ scale`. -/
+theorem modExp_fermat (t s : ℕ) (ht : t.Prime) (h64 : t < 2 ^ 64) (hs : ¬ t ∣ s) :
+    s * NTT.modExp s (t - 2) t % t = 1 := Lattigo.EncoderT.modExp_fermat t s ht h64 hs
+
+example : 5 * NTT.modExp 5 (257 - 2) 257 % 257 = 1 := by decide +kernel
+
 /-- **decode_encode_T** (`[]uint64`): `DecodeRingT(EncodeRingT(v, scale), scale) = v mod t`, unspecified
-    slots 0, for every `len v ≤ slots`, every output length, every scale with `scale·scaleInv ≡ 1`, any stale
-    buffer content.  Hypotheses, stated outright:
-    * `hperm`, `hplt`: the index table has no repeated entry and stays below `n`
-      (`permuteMatrix_ok_upto8` evaluates this for every ring degree up to 2^8);
-    * `hntt`, `hlt`: NTT∘INTT = id on reduced vectors over Z_t, INTT returns reduced values
-      (the transform-inverse theorem of the NTT work package; NOTE the direction needed here is
-      `NTT (INTT x) = x`). -/
-theorem decode_encode_T (T : NTT.Tables) (perm vals buf p : List Nat) (scale len : Nat)
-    (ht : 1 < T.q) (hperm : perm.Nodup) (hplt : ∀ q ∈ perm, q < T.n) (hbuf : buf.length = T.n)
-    (hs : scale * scaleInv T.q scale % T.q = 1)
-    (hntt : ∀ x : List Nat, x.length = T.n → (∀ e ∈ x, e < T.q) → NTT.nttStd T (NTT.inttStd T x) = x)
-    (hlt : ∀ x : List Nat, x.length = T.n → ∀ e ∈ NTT.inttStd T x, e < T.q)
-    (hlen : len ≤ perm.length)
+    slots 0, for every ring degree `n = 2^K ≥ 2`, every `len v ≤ n` (longer inputs are rejected: `none`), every
+    output length, every scale not divisible by `t`, any stale buffer content.  Only `Valid T K` is assumed. -/
+theorem decode_encode_T (T : NTT.Tables) (K : ℕ) (hT : NTT.Valid T K) (hK : 1 ≤ K)
+    (vals buf p : List ℕ) (scale len : ℕ) (hbuf : buf.length = T.n) (hs : ¬ T.q ∣ scale) (hlen : len ≤ T.n)
+    (henc : encodeRingTU T (permuteMatrix K) vals scale buf = some p) :
+    decodeRingTU T (permuteMatrix K) scale p len
+      = ((vals.map (· % T.q)) ++ List.replicate (T.n - vals.length) 0).take len := by
+  have hl := permuteMatrix_length K hK
+  have := decode_encode_T_valid T K hT (permuteMatrix K) vals buf p scale len (permuteMatrix_nodup K hK)
+    (by intro q hq; rw [hT.n_eq]; exact permuteMatrix_lt K hK q hq) hbuf hs (by rw [hl, ← hT.n_eq]; exact hlen) henc
+  rw [this, hl, hT.n_eq]
+
+/-- the same for any index table without repetition (the form used by `encode_mul`) -/
+theorem decode_encode_T_anyperm (T : NTT.Tables) (K : ℕ) (hT : NTT.Valid T K) (perm vals buf p : List ℕ)
+    (scale len : ℕ) (hperm : perm.Nodup) (hplt : ∀ q ∈ perm, q < T.n) (hbuf : buf.length = T.n)
+    (hs : ¬ T.q ∣ scale) (hlen : len ≤ perm.length)
     (henc : encodeRingTU T perm vals scale buf = some p) :
     decodeRingTU T perm scale p len
       = ((vals.map (· % T.q)) ++ List.replicate (perm.length - vals.length) 0).take len :=
-  Lattigo.EncoderT.decode_encode_T T perm vals buf p scale len ht hperm hplt hbuf hs hntt hlt hlen henc
+  decode_encode_T_valid T K hT perm vals buf p scale len hperm hplt hbuf hs hlen henc
+
+/-- **decode_encode_T with the tables the code generates**: `t` prime, `t ≡ 1 (mod 2n)`, `8t ≤ 2^64`,
+    `g` the quadratic non-residue (primitive root) found by `generateNTTConstants`. -/
+theorem decode_encode_T_mkTables (K t g : ℕ) (hK : 1 ≤ K) (ht : t.Prime) (h8 : 8 * t ≤ W)
+    (hdiv : 2 ^ (K + 1) ∣ t - 1) (hg : g ^ ((t - 1) / 2) % t = t - 1)
+    (vals buf p : List ℕ) (scale len : ℕ) (hbuf : buf.length = 2 ^ K) (hs : ¬ t ∣ scale) (hlen : len ≤ 2 ^ K)
+    (henc : encodeRingTU (NTT.mkTables (2 ^ K) t (2 ^ (K + 1)) g) (permuteMatrix K) vals scale buf = some p) :
+    decodeRingTU (NTT.mkTables (2 ^ K) t (2 ^ (K + 1)) g) (permuteMatrix K) scale p len
+      = ((vals.map (· % t)) ++ List.replicate (2 ^ K - vals.length) 0).take len :=
+  decode_encode_T (NTT.mkTables (2 ^ K) t (2 ^ (K + 1)) g) K
+    (Lattigo.Props.C01NTT.tables_invariant K t g ht h8 hdiv hg).1 hK vals buf p scale len hbuf hs hlen henc
+
+/-- **decode_encode_T, `[]int64` input, `[]uint64` output**: every Go `int64` (MinInt64 included) comes back as
+    its Euclidean residue `c mod t ∈ [0,t)`.  (No `Reduce` on this path: the residue `t` produced for negative
+    multiples of `t` is absorbed by the lazy range of INTT; stale buffer content is overwritten because the
+    index table is a full permutation.) -/
+theorem decode_encode_T_int64 (T : NTT.Tables) (K : ℕ) (hT : NTT.Valid T K) (hK : 1 ≤ K)
+    (vals : List ℤ) (buf p : List ℕ) (scale len : ℕ) (hbuf : buf.length = T.n)
+    (hv : ∀ c ∈ vals, -(2 ^ 63 : ℤ) ≤ c ∧ c < (2 ^ 63 : ℤ)) (hs : ¬ T.q ∣ scale) (hlen : len ≤ T.n)
+    (henc : encodeRingTI T (permuteMatrix K) vals scale buf = some p) :
+    decodeRingTU T (permuteMatrix K) scale p len
+      = ((vals.map fun c => (c % (T.q : ℤ)).toNat) ++ List.replicate (T.n - vals.length) 0).take len := by
+  have hl := permuteMatrix_length K hK
+  have := decode_encode_TI_valid T K hT (permuteMatrix K) buf p vals scale len (permuteMatrix_nodup K hK)
+    (by intro q hq; rw [hT.n_eq]; exact permuteMatrix_lt K hK q hq) (by rw [hl, hT.n_eq]) hbuf hv hs
+    (by rw [hl, ← hT.n_eq]; exact hlen) henc
+  rw [this, hl, hT.n_eq]
+
+/-- **decode_encode_T, `[]int64` in and out**: the decoded value is `center(c mod t)`; by `decode_signed_range` it
+    is congruent to `c` and lies in `[−(t+1)/2, (t+1)/2)`; by `decode_signed_exact` it IS `c` whenever
+    `−(t − ⌊t/2⌋) ≤ c < ⌊t/2⌋`. -/
+theorem decode_encode_T_signed (T : NTT.Tables) (K : ℕ) (hT : NTT.Valid T K) (hK : 1 ≤ K)
+    (vals : List ℤ) (buf p : List ℕ) (scale len : ℕ) (hbuf : buf.length = T.n)
+    (hv : ∀ c ∈ vals, -(2 ^ 63 : ℤ) ≤ c ∧ c < (2 ^ 63 : ℤ)) (hs : ¬ T.q ∣ scale) (hlen : len ≤ T.n)
+    (henc : encodeRingTI T (permuteMatrix K) vals scale buf = some p) :
+    decodeRingTI T (permuteMatrix K) scale p len
+      = (((vals.map fun c => (c % (T.q : ℤ)).toNat) ++ List.replicate (T.n - vals.length) 0).take len).map
+          (centerI64 T.q) := by
+  unfold decodeRingTI
+  rw [decode_encode_T_int64 T K hT hK vals buf p scale len hbuf hv hs hlen henc]
+
+theorem decode_signed_exact (t : ℕ) (c : ℤ) (ht : 0 < t) (hlo : -((t : ℤ) - ((t / 2 : ℕ) : ℤ)) ≤ c)
+    (hhi : c < ((t / 2 : ℕ) : ℤ)) : centerI64 t (c % (t : ℤ)).toNat = c := centerI64_exact t c ht hlo hhi
+
+/-- **encode_mul** (plaintext ring): the negacyclic product `⊛ = RPoly.rowMul t` of two encodings, decoded at
+    any scale `s ≡ s₁·s₂ (mod t)` with `t ∤ s`, is the slot-wise product modulo `t` (zero where either input
+    is unspecified).  `hinv` is C01's table invariant (`tables_invariant` provides it together with `Valid`). -/
+theorem encode_mul (T : NTT.Tables) (K : ℕ) (hT : NTT.Valid T K)
+    (hinv : NTT.TableInv (NTT.rho T.q T.rootsF) (2 ^ K)) (hK : 1 ≤ K)
+    (u v buf1 buf2 pu pv : List ℕ) (su sv s len : ℕ)
+    (hbuf1 : buf1.length = T.n) (hbuf2 : buf2.length = T.n)
+    (hs : s % T.q = su * sv % T.q) (hsd : ¬ T.q ∣ s) (hlen : len ≤ T.n)
+    (hencu : encodeRingTU T (permuteMatrix K) u su buf1 = some pu)
+    (hencv : encodeRingTU T (permuteMatrix K) v sv buf2 = some pv) :
+    decodeRingTU T (permuteMatrix K) s (RPoly.rowMul T.q pu pv) len
+      = (List.zipWith (fun a b => a * b % T.q)
+          ((u.map (· % T.q)) ++ List.replicate (T.n - u.length) 0)
+          ((v.map (· % T.q)) ++ List.replicate (T.n - v.length) 0)).take len := by
+  have hl := permuteMatrix_length K hK
+  have := encode_mul_T T K hT hinv (permuteMatrix K) u v buf1 buf2 pu pv su sv s len (permuteMatrix_nodup K hK)
+    (by intro q hq; rw [hT.n_eq]; exact permuteMatrix_lt K hK q hq) hbuf1 hbuf2 hs hsd
+    (by rw [hl, ← hT.n_eq]; exact hlen) hencu hencv
+  rw [this, hl, hT.n_eq]
 
 /-- signed decode (`[]int64`): the value returned for a residue `x` is congruent to `x` modulo `t` and lies in
     `[−(t+1)/2, (t+1)/2)`; the rule in the code is `x ≥ t>>1 → x − t` (so `(t−1)/2` comes back NEGATIVE). -/
@@ -62,6 +174,49 @@ theorem ringQ2T_ringT2Q_level0_coeff (t q0 p tinv : Nat) (ht : 0 < t) (hp : p < 
     (((p * (tinv % q0) % q0) * (t % q0) % q0 + q0 / 2) % q0 % t + t - q0 / 2 % t) % t = p :=
   q2t_coeff_level0 t q0 p tinv ht hp hq htinv
 
+/-- **modInv_spec** / **crt_spec**: the extended-Euclid inverse (fuel `2(log₂ m + 2)` suffices) and the CRT
+    reconstruction of `Model/RPoly.lean` are correct. -/
+theorem modInv_spec (a m : ℕ) (hm : 1 < m) (hc : Nat.Coprime a m) : (a * RPoly.modInv a m) % m = 1 :=
+  Lattigo.EncoderT.modInv_spec a m hm hc
+
+theorem crt_spec (qs : List ℕ) (hc : qs.Pairwise Nat.Coprime) (h1 : ∀ q ∈ qs, 1 < q) (x : ℕ)
+    (hx : x < RPoly.prod qs) : RPoly.crt qs (qs.map (x % ·)) = x := Lattigo.EncoderT.crt_spec qs hc h1 x hx
+
+/-- **RingQ2T ∘ RingT2Q = id**, every level (`qs` = the moduli at that level; one modulus: the
+    `AddScalar/Reduce/SubScalar` branch, several: `ModUpExact` / `PolyToBigintCentered` via CRT), every gap
+    `g = N/n ≥ 1`, every reduced plaintext polynomial.  `hQ'` concerns the branch `level > 0 ∧ gap > 1` only. -/
+theorem ringQ2T_ringT2Q (qs : List ℕ) (t n g : ℕ) (p : List ℕ) (hne : qs ≠ [])
+    (hc : qs.Pairwise Nat.Coprime) (h1 : ∀ q ∈ qs, 1 < q) (hct : ∀ q ∈ qs, Nat.Coprime t q)
+    (ht : 0 < t) (hn : 0 < n) (hg : 0 < g) (hpl : p.length = n) (hp : ∀ e ∈ p, e < t)
+    (hQ : 2 * (t - 1) < RPoly.prod qs)
+    (hQ' : 1 < qs.length → g ≠ 1 → t ≤ RPoly.prod qs / 2) :
+    ringQ2T t n (ringT2Q qs t (n * g) true p) = p :=
+  Lattigo.EncoderT.ringQ2T_ringT2Q qs t n g p hne hc h1 hct ht hn hg hpl hp hQ hQ'
+
+/-- at level > 0 both size conditions follow from `t ≤ Q[0]` (checked by `bgv.NewParameters`) -/
+theorem size_of_level_pos (q0 q1 : ℕ) (l : List ℕ) (t : ℕ) (h1 : ∀ q ∈ q0 :: q1 :: l, 1 < q) (ht : t ≤ q0) :
+    2 * (t - 1) < RPoly.prod (q0 :: q1 :: l) ∧ t ≤ RPoly.prod (q0 :: q1 :: l) / 2 := by
+  have hq1 := h1 q1 (by simp)
+  have hl : 0 < l.prod := by
+    rw [← BasisExt.prodN_eq_prod]
+    exact BasisExt.prodN_pos l (fun a ha => by have := h1 a (by simp [ha]); omega)
+  have hq0 := h1 q0 (by simp)
+  have h2 : 2 * t ≤ RPoly.prod (q0 :: q1 :: l) ∧ 0 < RPoly.prod (q0 :: q1 :: l) := by
+    rw [rprod_eq, List.prod_cons, List.prod_cons]
+    have h3 : 2 ≤ q1 * l.prod := by nlinarith
+    have : q0 * 2 ≤ q0 * (q1 * l.prod) := Nat.mul_le_mul_left q0 h3
+    omega
+  generalize RPoly.prod (q0 :: q1 :: l) = Q at h2 ⊢
+  omega
+
+/-- MODEL-LEVEL REMARK (not reachable through `bgv.NewParameters`, which enforces `t ≤ Q[0]`): `hQ'` cannot be dropped
+    from `ringQ2T_ringT2Q`.  With `t = 11`, `Q = 3·7 = 2t − 1`, gap 2, the residue `10 = ⌊Q/2⌋` is centred to `10 − 21`
+    by `PolyToBigintCentered` (`x ≥ Q>>1`) and decodes to `0`; the gap-1 branch and a single modulus `23` return it. -/
+theorem levelpos_gap_boundary_counterexample :
+    ringQ2T 11 2 (ringT2Q [3, 7] 11 4 true [10, 3]) = [0, 3]
+    ∧ ringQ2T 11 2 (ringT2Q [3, 7] 11 2 true [10, 3]) = [10, 3]
+    ∧ ringQ2T 11 2 (ringT2Q [23] 11 4 true [10, 3]) = [10, 3] := by decide +kernel
+
 /-- the hypothesis `2(t−1) < q0` is necessary: with `t = 13 ≤ q0 = 17` (accepted by `bgv.NewParameters`,
     which only checks `t ≤ Q[0]`), the residue 12 is NOT recovered at level 0. -/
 theorem level0_large_t_counterexample :
@@ -69,20 +224,131 @@ theorem level0_large_t_counterexample :
     ∧ ringQ2T 13 8 (ringT2Q [53] 13 8 true [12, 0, 0, 0, 0, 0, 0, 0]) = [12, 0, 0, 0, 0, 0, 0, 0] := by
   decide +kernel
 
-/-! ### non-vacuity / concrete instance (n = 8, t = 17, ψ from g = 3) -/
+/-! ### Decode ∘ Encode through `R_Q` -/
 
-def T8 : NTT.Tables := NTT.mkTables 8 17 16 3
+/-- an encoder instance built the way `NewEncoder` does (index table = `permuteMatrix K`) satisfies `ParamsOK` -/
+theorem paramsOK_mk (P : Params) (K g : ℕ) (hK : 1 ≤ K) (hT : NTT.Valid P.T K) (hperm : P.perm = permuteMatrix K)
+    (hN : P.bigN = P.T.n * g) (hg : 0 < g) (hne : P.qs ≠ []) (hc : P.qs.Pairwise Nat.Coprime)
+    (h1 : ∀ q ∈ P.qs, 1 < q) (hct : ∀ q ∈ P.qs, Nat.Coprime P.T.q q)
+    (hQ : 2 * (P.T.q - 1) < RPoly.prod P.qs)
+    (hQ' : 1 < P.qs.length → g ≠ 1 → P.T.q ≤ RPoly.prod P.qs / 2) : ParamsOK P K g where
+  valid := hT
+  perm_nodup := by rw [hperm]; exact permuteMatrix_nodup K hK
+  perm_lt := by rw [hperm, hT.n_eq]; exact permuteMatrix_lt K hK
+  perm_full := by rw [hperm, hT.n_eq]; exact permuteMatrix_length K hK
+  bigN_eq := hN
+  g_pos := hg
+  qs_ne := hne
+  qs_coprime := hc
+  qs_gt := h1
+  qs_t := hct
+  hQ := hQ
+  hQ' := hQ'
 
-example : (permuteMatrix 3).Nodup ∧ (∀ q ∈ permuteMatrix 3, q < T8.n) ∧ 5 * scaleInv T8.q 5 % T8.q = 1 := by
-  decide +kernel
+/-- **decode_encode** (`Encoder.Encode` then `Encoder.Decode`, batched, `[]uint64`): every vector no longer than the
+    slot count comes back modulo `t`, zero in the unspecified slots — any level, any gap, any scale with `t ∤ scale`. -/
+theorem decode_encode_batched (P : Params) (K g : ℕ) (h : ParamsOK P K g) (v : List ℕ) (scale len : ℕ)
+    (a : RPoly) (hs : ¬ P.T.q ∣ scale) (hlen : len ≤ P.T.n) (henc : encode P true scale (.u v) = some a) :
+    decodeU P true scale a len = ((v.map (· % P.T.q)) ++ List.replicate (P.T.n - v.length) 0).take len :=
+  decode_encode_batched_U P K g h v scale len a hs hlen henc
 
+/-- batched, `[]int64` in / `[]int64` out: `center(c mod t)` (see `decode_signed_range`, `decode_signed_exact`) -/
+theorem decode_encode_batched_signed (P : Params) (K g : ℕ) (h : ParamsOK P K g) (v : List ℤ) (scale len : ℕ)
+    (a : RPoly) (hv : ∀ c ∈ v, -(2 ^ 63 : ℤ) ≤ c ∧ c < (2 ^ 63 : ℤ)) (hs : ¬ P.T.q ∣ scale)
+    (hlen : len ≤ P.T.n) (henc : encode P true scale (.i v) = some a) :
+    decodeI P true scale a len
+      = (((v.map fun c => (c % (P.T.q : ℤ)).toNat) ++ List.replicate (P.T.n - v.length) 0).take len).map
+          (centerI64 P.T.q) := by
+  unfold decodeI
+  rw [decode_encode_batched_I P K g h v scale len a hv hs hlen henc]
+
+/-- coefficient domain (`IsBatched = false`), `[]uint64` -/
+theorem decode_encode_coeff (P : Params) (K g : ℕ) (h : ParamsOK P K g) (v : List ℕ) (scale len : ℕ)
+    (a : RPoly) (hs : ¬ P.T.q ∣ scale) (henc : encode P false scale (.u v) = some a) :
+    decodeU P false scale a len = ((v.map (· % P.T.q)) ++ List.replicate (P.T.n - v.length) 0).take len :=
+  decode_encode_coeff_U P K g h v scale len a hs henc
+
+/-- coefficient domain, `[]int64` in / `[]int64` out -/
+theorem decode_encode_coeff_signed (P : Params) (K g : ℕ) (h : ParamsOK P K g) (v : List ℤ) (scale len : ℕ)
+    (a : RPoly) (hv : ∀ c ∈ v, -(2 ^ 63 : ℤ) ≤ c ∧ c < (2 ^ 63 : ℤ)) (hs : ¬ P.T.q ∣ scale)
+    (henc : encode P false scale (.i v) = some a) :
+    decodeI P false scale a len
+      = (((v.map fun c => (c % (P.T.q : ℤ)).toNat) ++ List.replicate (P.T.n - v.length) 0).take len).map
+          (centerI64 P.T.q) := by
+  unfold decodeI
+  rw [decode_encode_coeff_I P K g h v scale len a hv hs henc]
+
+/-! ### non-vacuity / concrete instances -/
+
+/-- `n = 8`, `t = 17`, `ψ` from `g = 3`: the generated tables satisfy `Valid` and the table invariant -/
+def T8 : NTT.Tables := NTT.mkTables (2 ^ 3) 17 (2 ^ 4) 3
+
+theorem T8_valid : NTT.Valid T8 3 ∧ NTT.TableInv (NTT.rho T8.q T8.rootsF) (2 ^ 3) :=
+  Lattigo.Props.C01NTT.tables_invariant 3 17 3 (by norm_num) (by decide) (by decide) (by decide)
+
+/-- the hypotheses of `decode_encode_T` / `encode_mul` are met by a concrete instance … -/
+example : NTT.Valid T8 3 ∧ (List.replicate 8 9).length = T8.n ∧ ¬ T8.q ∣ 5 ∧ 5 % T8.q = 6 * 15 % T8.q := by
+  refine ⟨T8_valid.1, by decide, by decide, by decide⟩
+
+/-- … on which the conclusions can be watched (evaluation) -/
 example : (encodeRingTU T8 (permuteMatrix 3) [3, 20, 16] 5 (List.replicate 8 9)).map
       (fun p => decodeRingTU T8 (permuteMatrix 3) 5 p 8) = some [3, 3, 16, 0, 0, 0, 0, 0] := by
   decide +kernel
 
+example : (encodeRingTI T8 (permuteMatrix 3) [-17, -1, -9223372036854775808, 8] 5 (List.replicate 8 99)).map
+      (fun p => decodeRingTI T8 (permuteMatrix 3) 5 p 5) = some [0, -1, -9, -9, 0] := by
+  decide +kernel
+
+example : (do
+      let pu ← encodeRingTU T8 (permuteMatrix 3) [3, 20, 16] 6 (List.replicate 8 9)
+      let pv ← encodeRingTU T8 (permuteMatrix 3) [2, 5, 16, 7] 15 (List.replicate 8 1)
+      pure (decodeRingTU T8 (permuteMatrix 3) 5 (RPoly.rowMul T8.q pu pv) 8))
+    = some [6, 15, 1, 0, 0, 0, 0, 0] := by
+  decide +kernel
+
+/-- an encoder instance at level 1 (`Q = 97·193`), `N = 16 = 2n`: `ParamsOK` holds … -/
+def P8 : Params := { T := T8, perm := permuteMatrix 3, bigN := 16, qs := [97, 193] }
+
+example : ParamsOK P8 3 2 :=
+  paramsOK_mk P8 3 2 (by decide) T8_valid.1 rfl (by decide) (by decide) (by decide) (by decide) (by decide)
+    (by decide) (by decide) (by decide)
+
+/-- … and the conclusions can be watched (evaluation) -/
+example : (encode P8 true 5 (.u [3, 20, 16])).map (fun a => decodeU P8 true 5 a 8)
+      = some [3, 3, 16, 0, 0, 0, 0, 0]
+    ∧ (encode P8 true 5 (.i [-3, 20, -17, 8])).map (fun a => decodeI P8 true 5 a 6) = some [-3, 3, 0, -9, 0, 0]
+    ∧ (encode P8 false 5 (.u [3, 20, 16])).map (fun a => decodeU P8 false 5 a 8)
+      = some [3, 3, 16, 0, 0, 0, 0, 0] := by
+  decide +kernel
+
+/-- a 16-bit instance of the hypotheses: the Fermat prime `65537`, `n = 16` -/
+example : NTT.Valid (NTT.mkTables (2 ^ 4) 65537 (2 ^ 5) 3) 4 :=
+  (Lattigo.Props.C01NTT.tables_invariant 4 65537 3 (by norm_num) (by decide) (by decide) (by decide +kernel)).1
+
 end Lattigo.EncoderT.C07
 
+#print axioms Lattigo.EncoderT.C07.permuteMatrix_perm
+#print axioms Lattigo.EncoderT.C07.permuteMatrix_ok
+#print axioms Lattigo.EncoderT.C07.ntt_intt
+#print axioms Lattigo.EncoderT.C07.modExp_fermat
 #print axioms Lattigo.EncoderT.C07.decode_encode_T
+#print axioms Lattigo.EncoderT.C07.decode_encode_T_anyperm
+#print axioms Lattigo.EncoderT.C07.decode_encode_T_mkTables
+#print axioms Lattigo.EncoderT.C07.decode_encode_T_int64
+#print axioms Lattigo.EncoderT.C07.decode_encode_T_signed
+#print axioms Lattigo.EncoderT.C07.decode_signed_exact
+#print axioms Lattigo.EncoderT.C07.encode_mul
+#print axioms Lattigo.EncoderT.C07.T8_valid
+#print axioms Lattigo.EncoderT.C07.modInv_spec
+#print axioms Lattigo.EncoderT.C07.crt_spec
+#print axioms Lattigo.EncoderT.C07.ringQ2T_ringT2Q
+#print axioms Lattigo.EncoderT.C07.size_of_level_pos
+#print axioms Lattigo.EncoderT.C07.levelpos_gap_boundary_counterexample
+#print axioms Lattigo.EncoderT.C07.paramsOK_mk
+#print axioms Lattigo.EncoderT.C07.decode_encode_batched
+#print axioms Lattigo.EncoderT.C07.decode_encode_batched_signed
+#print axioms Lattigo.EncoderT.C07.decode_encode_coeff
+#print axioms Lattigo.EncoderT.C07.decode_encode_coeff_signed
 #print axioms Lattigo.EncoderT.C07.decode_signed_range
 #print axioms Lattigo.EncoderT.C07.decode_signed_boundary
 #print axioms Lattigo.EncoderT.C07.encode_signed
